@@ -8,8 +8,8 @@
 W=${1:-4}; MODE=${2:-seeded}; shift 2
 names="$@"
 if [ -z "$names" ]; then
-  if [ $MODE = seeded ]; then names=$(ls /verif/seeded | grep -E '^C[0-9]+-[a-z]$' | grep -vE -- '-[hvy]$')
-  else names=$(ls /verif/seeded | grep -E '^(C[0-9]+-[hvy]|H[0-9]+-[pq])$'); fi
+  if [ $MODE = seeded ]; then names=$(ls /verif/seeded | grep -E '^C[0-9]+-[a-z]$' | grep -vE -- '-[hvyx]$')
+  else names=$(ls /verif/seeded | grep -E '^(C[0-9]+-[hvyx]|H[0-9]+-[pq])$'); fi
 fi
 git -C /repo status --short | grep -q . && { echo "/repo has local modifications" >&2; exit 2; }
 rm -rf /tmp/par; mkdir -p /tmp/par
